@@ -450,8 +450,11 @@ def type_go(t, tagkey="yaml"):
         return {"k": k, "bits": t[1]}
     if k in ("ptr", "slice", "map"):
         return {"k": k, "e": type_go(t[1], tagkey)}
+    # a struct-typed field is an EMBEDDED one in one case of three (decided by its name): it is still bound from the subtree
+    # under its own name, like every other field
     return {"k": "struct", "f": [{"go": f[0], "tags": [{"k": a, "v": b} for a, b in field_tags(f)],
-                                 "name": match_name(f, tagkey), "t": type_go(f[2], tagkey)} for f in t[1]]}
+                                 "name": match_name(f, tagkey), "t": type_go(f[2], tagkey),
+                                 "anon": f[2][0] == "struct" and sum(map(ord, f[0])) % 3 == 0} for f in t[1]]}
 
 
 def type_coq(t):
